@@ -83,7 +83,8 @@ fn dir() -> BoxedStrategy<Dir> {
 fn case_strategy(tier: Tier) -> BoxedStrategy<Case> {
     let max = tier.pick(6, 8);
     (
-        prop::collection::vec(dir(), 0..=max),
+        // one tree in sixty is large (more entries than any internal batch size)
+        prop_oneof![60 => prop::collection::vec(dir(), 0..=max), 1 => prop::collection::vec(dir(), 130..300)],
         prop::collection::vec(prop::sample::select(vec!["pkgdb.byfile.db", "stray-1.0", "README", "+COMMENT", "foo-9.9"]).prop_map(String::from), 0..3),
     )
         .prop_map(|(dirs, stray_files)| {
@@ -288,6 +289,13 @@ pub fn check_meta(c: &MetaCase, obs: &mut Obs) -> Result<(), String> {
             acc.entry(*i).or_default().push_str(&t);
         } else {
             acc.insert(*i, t);
+        }
+        // validity is asked after every read: the answer depends on the content now, not on
+        // what was answered before
+        let now = MANDATORY.iter().all(|k| acc.get(k).map(|s| !s.is_empty()).unwrap_or(false));
+        obs.verdicts += 1;
+        if m.is_valid().is_ok() != now {
+            return Err(format!("after reading {} is_valid() = {:?}, expected valid = {} (reads so far: {:?})", FILES[*i], m.is_valid(), now, c.reads));
         }
     }
     let nonempty = |i: usize| acc.get(&i).map(|s| !s.is_empty()).unwrap_or(false);
